@@ -7,7 +7,11 @@ verus! {
 //@include specs/json_grammar.rs
 //@include units/frag_parser.vt.rs
 //@include units/frag_space.vt.rs
+impl<'de, R: Reader<'de>> Parser<R> {
+//@include units/frag_number.vt.rs
+}
 //@include units/frag_string.vt.rs
+//@include units/frag_skip.vt.rs
 
 } // verus!
 fn main() {}
